@@ -27,6 +27,26 @@ CLAIMED = {
         technique="Lean 4 reference interpreter (completion records, environments) with proved completion laws + model-predicted vs real trace and completion on generated programs + entry-route differentials",
         note="PARTIAL: objects, coercions, generators, destructuring and classes are outside the Lean fragment (only covered by the route differentials).",
     ),
+    "C04": dict(
+        level="proof",
+        text="Lean model of the two storage disciplines for the variables of an activation: the reference machine keeps every variable in "
+             "the environment that callees and closures share, the optimised machine keeps the variables the scope analysis calls local in "
+             "registers nothing outside the activation can reach; code outside the activation is an arbitrary transformer of the shared "
+             "environment. Theorems: exec_sim / placement_unobservable (for EVERY program of the model's language, every placement and every "
+             "behaviour of outside code that neither reads nor writes a register-resident variable, both machines print the same trace and "
+             "stay related), const_cache_valid (a register copy of a binding nothing assigns to equals every later read), tableOut_respects / "
+             "table_programs_agree (the concrete outside functions of the correspondence run meet the hypothesis), and an example that the "
+             "hypothesis is needed (a callee reading a register-resident variable sees a stale value). Tie: toy programs are rendered to "
+             "JavaScript and run on the engine in the default and in the conservative configuration (hook: every binding in an environment, "
+             "no constant cache, no hoisting, no fused branches); both must print the model's trace, and the engine's compiled code must not "
+             "keep in a register a variable the model's condition forbids. The property itself — trace(default) = trace(S conservative) for "
+             "subsets S — is decided on fixed shapes and on a generator biased to captures in loop heads and default parameters, eval, with, "
+             "generators, temporal dead zones, operands that write the variable read next to them, relational loop heads with constant, "
+             "mutated and coercing bounds.",
+        technique="Lean 4 simulation proof (register placement vs environment placement, constant cache) + model-vs-engine correspondence on translated toy programs incl. placement inclusion read from compiled code + default-vs-conservative configuration differential (hook)",
+        note="PARTIAL: the model's language has integers, assignment, branches, bounded loops and opaque outside calls; closures proper, eval, with, "
+             "generators and the temporal dead zone are decided by the configuration differential only.",
+    ),
     "C17": dict(
         level="proof",
         text="Lean model of Evaluate / InnerModuleEvaluation for modules without top-level await, as in ECMA-262 16.2.1.5.3: DFS and ancestor "
@@ -240,7 +260,7 @@ CLAIMED = {
 
 ALL = ["C%02d" % i for i in range(1, 21)]
 NOT_YET = "not claimed yet: model, correspondence and first theorem for this property are not built (see DESIGN.md §7 build order)"
-HOOK_COMMITS = ["ee8c1f4", "5c06b44", "e155a04", "1e55d63", "9e69b21", "f5f85fd", "f641ffa", "a4032f3", "c4c62fc"]
+HOOK_COMMITS = ["ee8c1f4", "5c06b44", "e155a04", "1e55d63", "9e69b21", "f5f85fd", "f641ffa", "a4032f3", "c4c62fc", "4577c96"]
 
 
 def manifest():
